@@ -439,7 +439,11 @@ func runC17(_ *testing.T, c c17Case) kit.Outcome {
 	}
 	mutators := map[string]bool{}
 	pairs := map[string]bool{}
-	for rep := 0; rep < c.Repeat; rep++ {
+	repeat := c.Repeat
+	if kit.Replay != "" {
+		repeat = 25 // a replayed race is reproduced statistically
+	}
+	for rep := 0; rep < repeat; rep++ {
 		methods, cleanup := sub.Build()
 		start := make(chan struct{})
 		var wg sync.WaitGroup
